@@ -88,6 +88,13 @@ def check_bitmap(ctx, prog, R):
     ctx.check(ok, "bitmap-maintained", "byte-index", "the bitmap byte of bucket idx is not addressed at bitmap_base + idx / 8", where=where(store))
     # the byte written originates from the byte read
     o = origins(prog, store, w8[0][1]["args"][1], at=w8[0][0])
+    # `byte &= m` (same variable: the read is one of its definitions) or `let byte = byte & m` (the read is the left operand)
+    o = list(o)
+    for x in list(o):
+        if x.kind == "bin":
+            for side in ("a", "b"):
+                if x.data[side].get("k") in ("cp", "mv"):
+                    o.extend(origins(prog, store, x.data[side], at=x.block))
     ctx.check(bool(o) and any(x.kind == "bin" for x in o) and any(x.kind == "call" and x.data.get("callee") == "rabuf::SmallRead::read_u8" for x in o),
               "bitmap-maintained", "rmw-origin", "the bitmap byte written is not derived from the byte read (%s)" % o, where=where(store, wb))
 
